@@ -550,8 +550,11 @@ pub fn run(cfg: &Cfg, rep: &mut Report) {
     // sampled families until the budget is used
     let rounds = cfg.per_shard(400_000, 40_000_000);
     for i in 0..rounds {
-        if i % 256 == 0 && deadline.over() {
-            break;
+        if i % 256 == 0 {
+            if deadline.over() {
+                break;
+            }
+            cfg.checkpoint(ctx.rep);
         }
         match rng.below(10) {
             0 | 1 => {
